@@ -25,7 +25,7 @@ Definition tok_eqb (a b : tok) : bool :=
   | TAtom n, TAtom m => Nat.eqb n m
   | TIn x, TIn y => list_eqb Nat.eqb x y
   | TText x, TText y => list_eqb Nat.eqb x y
-  | TAnd, TAnd | TOr, TOr | TNot, TNot | TLP, TLP | TRP, TRP => true
+  | TAnd, TAnd | TOr, TOr | TNot, TNot | TLP, TLP | TRP, TRP | TPipe, TPipe => true
   | _, _ => false
   end.
 
@@ -51,6 +51,9 @@ Inductive case :=
 (* expression e rendered by the harness as token list ts (full = every composite parenthesised,
    otherwise minimal) and as text; impl = AST returned by the real parser *)
 | CExpr (e : expr) (full : bool) (ts : list tok) (impl : res ast)
+(* SeqQL only: the same expression followed by a pipe section (` | fields ...`): ts = rendering
+   followed by TPipe; impl = AST of the real ParseSeqQL on the text with the pipe suffix *)
+| CExprPipe (e : expr) (full : bool) (ts : list tok) (impl : res ast)
 (* arbitrary token list (well-formed or not) *)
 | CToks (ts : list tok) (impl : res ast)
 (* propagateNot applied directly to tree t: impl = resulting node, flag *)
@@ -124,6 +127,8 @@ Definition case_agrees (c : case) : bool :=
   match c with
   | CExpr e full ts impl =>
       list_eqb tok_eqb ts (render_of full e) && res_eqb (parse ts) impl
+  | CExprPipe e full ts impl =>
+      list_eqb tok_eqb ts (render_of full e ++ [TPipe]) && res_eqb (parse ts) impl
   | CToks ts impl => res_eqb (parse ts) impl
   | CProp t impl flag =>
       let '(m, b) := propagate_not t in ast_eqb m impl && Bool.eqb b flag
@@ -139,7 +144,7 @@ Definition case_agrees (c : case) : bool :=
 (* implementation output satisfies the property (independent of the model's parser) *)
 Definition case_spec_ok (c : case) : bool :=
   match c with
-  | CExpr e _ _ impl =>
+  | CExpr e _ _ impl | CExprPipe e _ _ impl =>
       match impl with
       | Ok t => forallb (fun v => Bool.eqb (eval v t) (den v e)) (valuations natoms)
                 && not_only_at_root t
